@@ -5,7 +5,7 @@ from common import Result
 
 INFO = dict(
     level="translation_validation",
-    rule="every compiled instance the harness builds — recorded random probe graphs (2 ragged episodes), an equal-rate family and a high-rate-ratio family (> 10 slots of one kind) x {MCS, GENERATIONAL, TOPOLOGICAL} x "
+    rule="every compiled instance the harness builds — recorded random probe graphs (2 ragged episodes), an equal-rate family, a high-rate-ratio family (> 10 slots of one kind), generated graphs whose sink ends exactly at a supervisor start, and graphs written down directly with sinks of very different step durations (a long sink step still running at the last supervisor start while short ones finish) x {MCS, GENERATIONAL, TOPOLOGICAL} x "
     "{prune, no prune} x episode — is exported (windowed graph + Graph.timings) and decided by the Lean checker Rex.Sched.checkSchedule whose soundness is proved in Props/C07.lean; the high-ratio family is also executed "
     "and compared step by step with the recorded async episode (the executor's slot order is not visible in the timings). Non-trivial: ragged stack or prune off",
     trusted=["Lean: checkSchedule is sound for the declarative statement (Props/C07.lean); apply_window = last-w-consumed (Props/C01.lean)",
@@ -17,8 +17,8 @@ INFO = dict(
 def run(ctx):
     res = Result()
     n = ctx.n(4, 6 if ctx.search else 24)
-    seeds = [ctx.rng.randrange(1 << 30) for _ in range(n + 6)]
-    kinds = ["random"] * n + ["equal_rates", "high_ratio", "trainable", "trainable", "sink_tie", "sink_tie"]
+    seeds = [ctx.rng.randrange(1 << 30) for _ in range(n + 8)]
+    kinds = ["random"] * n + ["equal_rates", "high_ratio", "trainable", "trainable", "sink_tie", "sink_tie", "raw_sinks", "raw_sinks"]
     tasks = [dict(fn="tasks_rt:sched_case", args=dict(seed=s, spec_kind=k), timeout=1200) for s, k in zip(seeds, kinds)]
     tasks.append(dict(fn="tasks_rt:compiled_case", args=dict(seed=seeds[-1] + 1, spec_kind="high_ratio", modes=("GENERATIONAL", "TOPOLOGICAL"), prunes=(True,)), timeout=1200))
     good = ac.pool_cases(tasks, res, timeout=1200)
